@@ -1025,11 +1025,15 @@ class list_t(object):
                     # The model's view is always masked 2's complement
                     v = int(self.model.field_l[self.idx].get_val())
                     
+                    self.idx += 1
+                    if self.l.is_enum:
+                        # Yield the enumerator, as indexing does
+                        return self.l.t.enum_i.v2e(v)
+                    
                     if self.l.t.is_signed:
                         if (v & (1 << (self.l.t.width-1))) != 0:
                             v = -((~v & self.l.mask)+1)
                         
-                    self.idx += 1
                     return int(v)
 
         class list_object_it(object):
